@@ -22,6 +22,7 @@ from vlib.build import BuildError
 from tools.gen import marsh as gen_marsh
 from tools.gen import marshcode as gen_marshcode
 from tools.gen import asm as gen_asm
+from tools.gen import asmdef as gen_asmdef
 from tools.gen import bytecode as gen_bytecode
 from tools.gen import peg as gen_peg
 from tools.gen.csrc import ExtractError
@@ -35,6 +36,7 @@ THEOREMS = ["JanetModel.Props.C09." + t for t in (
     "env_slot_test_is_bit", "env_walk_visits_set_bits",                                  # closure env written from a live frame
     "roundtrip_code", "roundtrip_funcdef", "roundtrip_funcenv", "code_ids_agree", "roundtrip_code_top",   # functions, funcdefs, closure envs
     "code_model_extends_data_model",                                                     # Code.lean = Graph.lean on data heaps (marshal side)
+    "asm_disasm_def", "asm_slotcount_covers", "asm_slotcount_le", "asm_slotcount_eq", "asm_disasm_def_tight",   # asm . disasm at funcdef level: slot count, janet_verify
     "asm_disasm_instr", "asm_disasm_bytecode",                                           # asm . disasm on instruction words / bytecode arrays
     "abstract_hook_roundtrip", "int64_hooks_paired", "int64_box_roundtrip", "channel_hooks_paired", "channel_roundtrip", "peg_hooks_paired",  # abstract hook protocol
 )]
@@ -361,6 +363,96 @@ def compiled_cases(ctx, thorough):
     return out
 
 
+PARAM_LISTS = ["[]", "[a]", "[a b c]", "[& r]", "[a & r]", "[a b & r]", "[&opt a]", "[a &opt b c]", "[a &opt b & r]", "[&keys k]", "[a &keys k]",
+               "[&named x y]", "[a &named x]", "[a &opt b &keys k]", "[[a b] c]", "[[a b] & r]", "[{:k v} c]", "[a [b [c d]]]", "[a &opt [b c]]",
+               "[a b c d e f g h]", "[a b c d e f g h & r]"]
+
+
+def param_cases(ctx, thorough):
+    """every parameter-list kind x bodies that use none / some / all of the parameters (so that the rest / keys / optional /
+    destructured slots are, or are not, operands of an instruction), closed over by an inner function or not"""
+    out = []
+    for pl in PARAM_LISTS:
+        names = [n for n in re.findall(r"[a-z]+", pl.replace(":k", "")) if n not in ("opt", "keys", "named")]
+        bodies = ["nil", "1", "(+ 1 2)", "(do (def t 5) (+ t 1))", "(do (var t 5) (set t 7) t)", "[%s]" % " ".join(names), "(fn [] 1)"]
+        for n in names:
+            bodies.append(n)
+            bodies.append("(do (def [p q] [%s 2]) p)" % n)
+        if names:
+            bodies.append("(fn [] %s)" % names[-1])
+            bodies.append("(fn [] [%s])" % " ".join(names))
+            bodies.append("(do (def u %s) (def [p q] [1 2]) (fn [] u))" % names[0])
+        for b in bodies:
+            out.append("V (fn %s %s)" % (pl, b))
+    nrand = 300 if not thorough else 6000
+    for _ in range(nrand):
+        pl = PARAM_LISTS[ctx.rng.below(len(PARAM_LISTS))]
+        names = [n for n in re.findall(r"[a-z]+", pl.replace(":k", "")) if n not in ("opt", "keys", "named")]
+        stmts = []
+        avail = list(names)
+        for j in range(ctx.rng.below(4)):
+            kind = ctx.rng.below(5)
+            src = avail[ctx.rng.below(len(avail))] if avail and ctx.rng.below(3) else str(ctx.rng.below(300) - 150)
+            nm = "l%d" % j
+            if kind == 0:
+                stmts.append("(def %s %s)" % (nm, src)); avail.append(nm)
+            elif kind == 1:
+                stmts.append("(var %s %s)" % (nm, src)); avail.append(nm)
+            elif kind == 2:
+                stmts.append("(def [%s %sb] [%s 2])" % (nm, nm, src)); avail += [nm, nm + "b"]
+            elif kind == 3:
+                stmts.append("(def {:k %s} {:k %s})" % (nm, src)); avail.append(nm)
+            else:
+                stmts.append("(def %s (fn [] %s))" % (nm, src)); avail.append(nm)
+        used = [a for a in avail if ctx.rng.below(2)]
+        ret = ["nil", "[%s]" % " ".join(used), "(fn [] [%s])" % " ".join(used), used[0] if used else "0"][ctx.rng.below(4)]
+        out.append("V (fn %s %s %s)" % (pl, " ".join(stmts), ret))
+    return out
+
+
+def hdr_defs(words, hdr, ses_ops=()):
+    """(words, header) of one function as printed by asmwords.c -> list of funcdefs (preorder); `extra` of a funcdef = the
+    captured-slot operands of ldu / setu instructions of its descendants that read_instruction hands to it (`env + 1` levels up)"""
+    out = []
+    for wpart, hpart in zip(words.split("/"), hdr.split("/")):
+        body, _, n = wpart.partition(";n=")
+        n = int(n or 0)
+        wmap = dict(p.split(":") for p in body.split(",") if ":" in p)
+        fields, syms, codes = hpart.split(";")
+        va, sa, ar, mn, mx, sc, nc, nd, ne = [int(x) for x in fields.split(",")]
+        sy = [] if syms == "-" else [tuple(int(x) for x in e.split(":")) for e in syms.split(",")]
+        cd = [tuple(int(x) for x in e.split(":")) for e in codes.split(",") if e]
+        out.append({"n": n, "wmap": wmap, "vararg": va, "structarg": sa, "arity": ar, "min": mn, "max": mx, "slotcount": sc,
+                    "nconsts": nc, "ndefs": nd, "nenvs": ne, "syms": sy, "codes": cd, "extra": [], "parent": None, "walks_past_root": False})
+    # preorder + ndefs -> parents
+    stack = []
+    for d in out:
+        while stack and stack[-1][1] == 0:
+            stack.pop()
+        if stack:
+            d["parent"] = stack[-1][0]
+            stack[-1][1] -= 1
+        stack.append([d, d["ndefs"]])
+    for d in out:
+        for w in d["wmap"].values():
+            w = int(w, 16)
+            if (w & 0x7F) in ses_ops:
+                b = d
+                for _ in range(((w >> 16) & 0xFF) + 1):
+                    b = b["parent"] if b is not None else None
+                if b is None:
+                    d["walks_past_root"] = True
+                else:
+                    b["extra"].append(w >> 24)
+    return out
+
+
+def asmdef_line(d, sc):
+    hx = "".join(d["wmap"].get(str(i), "00000000") for i in range(d["n"])) or "-"
+    return "asmdef %d %d %d %d %d %d %d %d %s %s%s" % (d["vararg"], d["arity"], d["min"], d["max"], sc, d["nconsts"], d["ndefs"], d["nenvs"], hx,
+                                                       ",".join(str(x) for x in d["extra"]) or "-", "".join(" %d %d %d" % e for e in d["syms"]))
+
+
 def function_depth(ctx, hxc, exe, guard, code_cases, lo=None, hi=None):
     """a function nested d arrays deep, d around the recursion guard: whatever marshals must unmarshal (direct oracle);
     model `marshalc` / `unmarshalc` must agree with the implementation on ok / err at every depth"""
@@ -418,6 +510,7 @@ def run(ctx):
         lb = gen_marsh.extract(ctx.build.tree)[0]
         ctx.gen("Bytecode.lean", gen_bytecode.render(ctx.build.tree))
         ctx.gen("Asm.lean", gen_asm.render(ctx.build.tree))
+        ctx.gen("AsmDef.lean", gen_asmdef.render(ctx.build.tree))
     except ExtractError as e:
         broken.append("translator tools/gen/marsh.py: %s" % e)
         ctx.broken.append(broken[-1])
@@ -866,7 +959,13 @@ def run(ctx):
             acases, askipped, hxa = [], [], None
             broken.append("asm operand table / harness: %s" % str(e)[-400:])
             ctx.broken.append(broken[-1])
-        ccases = compiled_cases(ctx, not quick)
+        ccases = compiled_cases(ctx, not quick) + param_cases(ctx, not quick)
+        # corpus: minimised past failures of asm . disasm, run through the same pipeline on every run
+        cdir = os.path.join(VERIF, "corpus/C09")
+        for fn in sorted(os.listdir(cdir)) if os.path.isdir(cdir) else []:
+            sc = json.load(open(os.path.join(cdir, fn)))
+            if sc.get("kind") == "asm":
+                ccases = [l for l in sc["lines"] if l not in ccases] + ccases
         if hxa:
             alines = [c["line"] for c in acases] + ccases
             chunks = [alines[i::nproc] for i in range(nproc)]
@@ -877,10 +976,17 @@ def run(ctx):
                 ares = list(ex.map(runa, chunks))
             aout = {}
             adis = {}
+            ahdr = {}
             for ch, (rc, out, err) in zip(chunks, ares):
                 for l, o in zip(ch, out):
                     if " |D " in o:
                         o, _, adis[l] = o.partition(" |D ")
+                    if " |H " in o:
+                        o, _, h = o.partition(" |H ")
+                        if o.startswith("err2"):
+                            h, _, msg = h.partition(" | ")
+                            o = o + " " + msg
+                        ahdr[l] = h
                     aout[l] = o
                 if rc != 0 or len(out) != len(ch):
                     bad = ch[len(out)] if len(out) < len(ch) else "?"
@@ -937,6 +1043,76 @@ def run(ctx):
                     tag = "asm-disasm-raises" if o.startswith("err2") else "asm-disasm-behaviour"
                     violations.append((tag, {"kind": "asm", "line": l[:3000], "result": o[-600:], "janet": "(asm (disasm %s))" % l[2:3000]},
                                        "(asm (disasm f)) %s for f = %s: %s" % ("raises" if o.startswith("err2") else "behaves differently", l[2:160], o.split(" ", 2)[-1][-200:])))
+            # funcdef level (Asm/Def.lean): the model's janet_verify vs the real one on every funcdef at a dozen slot counts; the
+            # slot count the model's janet_asm1 computes vs the one (asm (disasm f)) has; model accepts <=> implementation accepts;
+            # oracle without the model: every field janet_verify reads is the same in f and (asm (disasm f)), slot count aside
+            dstats = {"funcdefs": 0, "verify_calls_compared": 0, "verify_codes": {}, "slotcount_equal": 0, "slotcount_smaller": 0, "slotcount_larger": 0,
+                      "variadic": 0, "rest_slot_not_an_operand": 0, "with_symbolmap": 0, "nested": 0, "asm_rejected": 0, "param_cases": len([l for l in ccases if l.startswith("V ")])}
+            dlines, dmeta = [], []
+            try:
+                ops_, types_, _ = gen_bytecode.extract(ctx.build.tree)
+                ses_ops = set(num for (name, num), ty in zip(ops_, types_) if ty == "JINT_SES")
+            except ExtractError:
+                ses_ops = set()
+            dstats["upvalue_operands_counted_in_ancestor"] = 0
+            for l, h in sorted(ahdr.items()):
+                o = aout.get(l, "")
+                try:
+                    if o.startswith("ok "):
+                        _, wf, wg = o.split(" ", 2)
+                        hf, hg = h.split(" ")
+                        fds, gds = hdr_defs(wf, hf, ses_ops), hdr_defs(wg, hg, ses_ops)
+                    elif o.startswith("err2 "):
+                        fds, gds = hdr_defs(o.split(" ", 2)[1], h.strip(), ses_ops), None
+                    else:
+                        continue
+                except ValueError as e:
+                    adiffs.append({"case": l[:200], "why": "header line not understood: %s" % e})
+                    continue
+                if gds is not None and len(gds) != len(fds):
+                    violations.append(("asm-disasm-defs", {"kind": "asm", "line": l[:3000], "result": o[:300]}, "(asm (disasm f)) has %d funcdefs, f has %d" % (len(gds), len(fds))))
+                    continue
+                for k, fd in enumerate(fds):
+                    dstats["funcdefs"] += 1
+                    dstats["nested"] += 1 if k else 0
+                    dstats["variadic"] += fd["vararg"]
+                    dstats["with_symbolmap"] += 1 if fd["syms"] else 0
+                    dstats["upvalue_operands_counted_in_ancestor"] += len(fd["extra"])
+                    gd = gds[k] if gds is not None else None
+                    if gd is not None:
+                        same = all(fd[x] == gd[x] for x in ("vararg", "structarg", "arity", "min", "max", "nconsts", "ndefs", "nenvs", "syms", "n"))
+                        if not same:
+                            violations.append(("asm-disasm-header", {"kind": "asm", "line": l[:3000], "original": {x: fd[x] for x in fd if x not in ("wmap", "codes")},
+                                                                     "copy": {x: gd[x] for x in gd if x not in ("wmap", "codes")}},
+                                               "(asm (disasm f)) differs from f in arity / flags / table lengths / symbol map for %s (funcdef %d)" % (l[2:160], k)))
+                        dstats["slotcount_equal" if gd["slotcount"] == fd["slotcount"] else "slotcount_smaller" if gd["slotcount"] < fd["slotcount"] else "slotcount_larger"] += 1
+                    else:
+                        dstats["asm_rejected"] += 1 if k == 0 else 0
+                    if fd["n"] <= 3000:
+                        for sc, code in fd["codes"]:
+                            dlines.append(asmdef_line(fd, sc))
+                            dmeta.append((l, k, fd, gd, sc, code, gds is None))
+            dm = ctx.model(dlines, exe=exe) if exe and dlines else []
+            rejected_by_model = {}
+            for (l, k, fd, gd, sc, code, rejected), r in zip(dmeta, dm):
+                parts = r.split()
+                if len(parts) < 3:
+                    adiffs.append({"case": l[:200], "funcdef": k, "model": r}); continue
+                dstats["verify_calls_compared"] += 1
+                dstats["verify_codes"][str(code)] = dstats["verify_codes"].get(str(code), 0) + 1
+                if int(parts[0]) != code:
+                    adiffs.append({"case": l[:200], "funcdef": k, "slotcount": sc, "janet_verify": code, "model_verify": int(parts[0])})
+                if sc == fd["slotcount"]:
+                    if fd["vararg"] and fd["slotcount"] == fd["arity"] + 1:
+                        dstats["rest_slot_not_an_operand"] += 1
+                    if gd is not None and (parts[2] != "ok" or int(parts[3]) != gd["slotcount"]):
+                        adiffs.append({"case": l[:200], "funcdef": k, "slotcount_of_asm_disasm": gd["slotcount"], "model": r})
+                    if rejected:
+                        rejected_by_model[l] = rejected_by_model.get(l, False) or parts[2] == "err" or fd["walks_past_root"]
+            for l, rj in rejected_by_model.items():
+                if not rj:
+                    adiffs.append({"case": l[:200], "why": "implementation rejects (asm (disasm f)), the model accepts every funcdef of f"})
+            astats["funcdef_level"] = dstats
             # every instruction word the implementation produced (table cases and compiled functions, nested funcdefs included):
             # the model's encode (decode w) must give the word back - the statement of asm_disasm_instr on the real words
             words = set()
@@ -1158,6 +1334,9 @@ def replay(ctx, path):
         rc, out, err = run_cmd([hxa], input=(r["line"] + "\n").encode(), timeout=600, env=ENV)
         o = out.decode(errors="replace").strip()
         print("replayed:", o[:600])
+        o = o.partition(" |D ")[0]
+        if " |H " in o:
+            o = o.partition(" |H ")[0] + (" " + o.partition(" |H ")[2].partition(" | ")[2] if o.startswith("err2") else "")
         parts = o.split(" ", 2)
         still = rc != 0 or (parts[0] != "ok") != (r.get("signature", "").startswith("asm-accepts")) or (parts[0] == "ok" and len(parts) == 3 and parts[1] != parts[2])
         if still:
